@@ -378,6 +378,8 @@ pub enum E {
     Keyword(u8),
     /// `(c1, c2) IN ((v, v), ..)` through `in_tuples` (bound value tuples)
     InTuples(Vec<E>, Vec<(i64, i64)>),
+    /// the same with tuples of 2..=5 members (as many as columns; each row is cut / padded to that arity)
+    InTuplesN(Vec<E>, Vec<Vec<i64>>),
     Exists,
     ScalarSub,
     /// x op ANY/SOME/ALL (subquery); 0 = ANY, 1 = SOME, 2 = ALL
@@ -482,6 +484,12 @@ fn bin_entry(l: SimpleExpr, op: Op, r: &E, d: Dialect, k: u64) -> SimpleExpr {
         Op::SqCastJson => SqliteExpr::cast_json_field(l, rb),
         _ => l.binary(op.to_binoper(), rb),
     }
+}
+
+/// rows of an `InTuplesN` cut / padded to the arity (2..=5) of its column tuple
+pub fn rows_n(arity: usize, rows: &[Vec<i64>]) -> Vec<Vec<i64>> {
+    let n = arity.clamp(2, 5);
+    rows.iter().map(|r| (0..n).map(|k| r.get(k).copied().unwrap_or(k as i64)).collect()).collect()
 }
 
 impl E {
@@ -658,6 +666,45 @@ impl E {
                     _ => t.is_in(rows.iter().map(|(x, y)| SimpleExpr::from(Expr::tuple([Expr::val(*x).into(), Expr::val(*y).into()])))),
                 }
             }
+            E::InTuplesN(cols, rows) => {
+                let t = Expr::tuple(cols.iter().map(|e| e.build(d)).collect::<Vec<_>>());
+                let rows = rows_n(cols.len(), rows);
+                let entry = self.entry();
+                fn call<V: IntoValueTuple>(t: Expr, simple: bool, rows: Vec<V>) -> SimpleExpr {
+                    if simple {
+                        SimpleExpr::from(t).in_tuples(rows)
+                    } else {
+                        t.in_tuples(rows)
+                    }
+                }
+                let simple = entry % 2 == 1;
+                match (entry / 2) % 3 {
+                    // Rust tuples of the arity
+                    0 => match cols.len() {
+                        2 => call(t, simple, rows.iter().map(|r| (r[0], r[1])).collect()),
+                        3 => call(t, simple, rows.iter().map(|r| (r[0], r[1], r[2])).collect()),
+                        4 => call(t, simple, rows.iter().map(|r| (r[0], r[1], r[2], r[3])).collect()),
+                        _ => call(t, simple, rows.iter().map(|r| (r[0], r[1], r[2], r[3], r[4])).collect()),
+                    },
+                    // ValueTuple values
+                    1 => call(
+                        t,
+                        simple,
+                        rows.iter()
+                            .map(|r| {
+                                let v = |k: usize| Value::from(r[k]);
+                                match r.len() {
+                                    2 => ValueTuple::Two(v(0), v(1)),
+                                    3 => ValueTuple::Three(v(0), v(1), v(2)),
+                                    _ => ValueTuple::Many(r.iter().map(|x| Value::from(*x)).collect()),
+                                }
+                            })
+                            .collect(),
+                    ),
+                    // the general IN with row constructors as list elements
+                    _ => t.is_in(rows.iter().map(|r| SimpleExpr::from(Expr::tuple(r.iter().map(|x| SimpleExpr::from(Expr::val(*x))).collect::<Vec<_>>())))),
+                }
+            }
             E::Keyword(k) => match k % 3 {
                 0 => Expr::current_date().into(),
                 1 => Expr::current_time().into(),
@@ -806,6 +853,14 @@ impl E {
                 let cell = |v: i64| if params { PT::Param(None) } else { PT::Num(v.to_string()) };
                 PT::In(false, Box::new(PT::Tuple(cols.iter().map(|e| e.expect(d, params)).collect())), rows.iter().map(|(x, y)| PT::Tuple(vec![cell(*x), cell(*y)])).collect())
             }
+            E::InTuplesN(cols, rows) => {
+                let cell = |v: i64| if params { PT::Param(None) } else { PT::Num(v.to_string()) };
+                PT::In(
+                    false,
+                    Box::new(PT::Tuple(cols.iter().map(|e| e.expect(d, params)).collect())),
+                    rows_n(cols.len(), rows).iter().map(|r| PT::Tuple(r.iter().map(|x| cell(*x)).collect())).collect(),
+                )
+            }
             E::Keyword(k) => PT::Kw(["CURRENT_DATE", "CURRENT_TIME", "CURRENT_TIMESTAMP"][(*k % 3) as usize].into()),
             E::Exists => PT::Sub(Some("EXISTS".into()), sub_text(d, params)),
             E::ScalarSub => PT::Sub(None, sub_text(d, params)),
@@ -916,7 +971,7 @@ impl E {
                 let ri: Option<Vec<String>> = r.iter().map(|e| e.ref_sqlite()).collect();
                 format!("(({}) {} ({}))", li?.join(", "), op.text(), ri?.join(", "))
             }
-            E::InTuples(..) | E::Keyword(_) => return None,
+            E::InTuples(..) | E::InTuplesN(..) | E::Keyword(_) => return None,
             E::Exists => "(EXISTS (SELECT \"p\" FROM \"tt\" WHERE \"id\" < 5))".into(),
             E::ScalarSub => "(SELECT \"p\" FROM \"tt\" WHERE \"id\" < 5)".into(),
             E::Quantified(..) => return None,
@@ -970,6 +1025,7 @@ impl E {
             }
             E::Quantified(x, op, q) => E::Quantified(Box::new(g(x)), *op, *q),
             E::InTuples(cols, rows) => E::InTuples(cols.iter().map(|e| g(e)).collect(), rows.clone()),
+            E::InTuplesN(cols, rows) => E::InTuplesN(cols.iter().map(|e| g(e)).collect(), rows.clone()),
             E::CustomTmpl(x, y) => {
                 let x2 = g(x);
                 let y2 = g(y);
@@ -994,7 +1050,7 @@ impl E {
             E::Func(_, a) => a.iter().collect(),
             E::Case(w, e) => w.iter().flat_map(|(a, b)| [a, b]).chain(e.iter().map(|b| &**b)).collect(),
             E::TupleCmp(l, _, r) => l.iter().chain(r.iter()).collect(),
-            E::InTuples(cols, _) => cols.iter().collect(),
+            E::InTuples(cols, _) | E::InTuplesN(cols, _) => cols.iter().collect(),
             E::Quantified(x, _, _) => vec![x],
             E::CustomTmpl(x, y) => vec![x, y],
             _ => vec![],
@@ -1003,7 +1059,7 @@ impl E {
 
     /// is this node an operator node (for the "operator under operator" non-triviality rule)
     pub fn is_operator(&self) -> bool {
-        matches!(self, E::Not(_) | E::Bin(..) | E::Between { .. } | E::LikePat { .. } | E::In { .. } | E::InSub { .. } | E::TupleCmp(..) | E::InTuples(..) | E::Quantified(..) | E::AsEnum(_))
+        matches!(self, E::Not(_) | E::Bin(..) | E::Between { .. } | E::LikePat { .. } | E::In { .. } | E::InSub { .. } | E::TupleCmp(..) | E::InTuples(..) | E::InTuplesN(..) | E::Quantified(..) | E::AsEnum(_))
     }
 
     pub fn kind(&self) -> String {
@@ -1021,6 +1077,7 @@ impl E {
             E::Case(..) => "CASE".into(),
             E::TupleCmp(..) => "tuple-cmp".into(),
             E::InTuples(..) => "IN-TUPLES".into(),
+            E::InTuplesN(c, _) => format!("IN-TUPLES/{}", c.len().clamp(2, 5)),
             E::Quantified(..) => "quantified".into(),
             E::CustomTmpl(..) | E::CustomText => "custom".into(),
             E::Exists | E::ScalarSub => "subquery".into(),
@@ -1163,6 +1220,10 @@ pub fn expr(d: Dialect, depth: u32, engine: bool) -> BoxedStrategy<E> {
             choices.push((
                 1,
                 (proptest::collection::vec(inner.clone(), 2..3), proptest::collection::vec((-2i64..6, -2i64..6), 1..4)).prop_map(|(cols, rows)| E::InTuples(cols, rows)).boxed(),
+            ));
+            choices.push((
+                1,
+                (proptest::collection::vec(inner.clone(), 3..6), proptest::collection::vec(proptest::collection::vec(-2i64..9, 5), 1..4)).prop_map(|(cols, rows)| E::InTuplesN(cols, rows)).boxed(),
             ));
             if d != Dialect::Sqlite {
                 choices.push((
